@@ -209,7 +209,7 @@ def replay(chk, path):
     print(json.dumps({k: v for k, v in case.items() if k != "items"})[:2000])
     if case.get("a") in ("mut", "flip", "trunc", "rt", "craft") and case.get("hex") and not case["hex"].endswith("..."):
         binary = vlib.build("cbor")
-        groups = "all"
+        groups = case.get("grp") or "all"
         r = vlib.run_driver(binary, ["-groups", groups, "-only", case["typ"], "-replay", case["hex"]], ok_codes=(0, 2))
         print(r.stdout.strip() or r.stderr.strip()[-800:])
         return 1 if "res=acc" in r.stdout or "panic=true" in r.stdout else 0
